@@ -32,3 +32,11 @@ import CalmVerif.Props.C20
 #check @CalmVerif.Props.C20.newline_handler_indents_by_level
 #print axioms CalmVerif.Props.C20.fuel_is_only_a_recursion_device
 #check @CalmVerif.Props.C20.fuel_is_only_a_recursion_device
+#print axioms CalmVerif.Props.C20.indent_table_facts
+#check @CalmVerif.Props.C20.indent_table_facts
+#print axioms CalmVerif.Props.C20.pretty_chunks_line
+#check @CalmVerif.Props.C20.pretty_chunks_line
+#print axioms CalmVerif.Props.C20.pretty_lines_indented
+#check @CalmVerif.Props.C20.pretty_lines_indented
+#print axioms CalmVerif.Props.C20.pretty_text_ends_with_one_newline
+#check @CalmVerif.Props.C20.pretty_text_ends_with_one_newline
